@@ -33,9 +33,10 @@ type fnSpec struct {
 }
 
 type unit struct {
-	File    string // output file (module name)
-	Imports []string
-	Fns     []fnSpec
+	File     string // output file (module name)
+	Imports  []string
+	Fns      []fnSpec
+	Preamble string // definitions written before the functions (stage3.go)
 }
 
 var units = []unit{
@@ -76,6 +77,18 @@ var units = []unit{
 	}},
 	{File: "CoinTruncate", Imports: []string{"Mathutil"}, Fns: []fnSpec{
 		{"src/coin", "Transactions", "TruncateBytesTo"},
+	}},
+	// third stage (stage3.go): message truncation over item sizes, header checks
+	{File: "MsgTruncate", Preamble: msgTruncatePreamble, Fns: []fnSpec{
+		{"src/daemon", "", "truncateGivePeersMessage"},
+		{"src/daemon", "", "truncateGiveBlocksMessage"},
+		{"src/daemon", "", "truncateGiveTxnsMessage"},
+		{"src/daemon", "", "truncateSHA256Slice"},
+		{"src/daemon", "", "truncateAnnounceTxnsHashes"},
+		{"src/daemon", "", "truncateGetTxnsHashes"},
+	}},
+	{File: "HeaderChecks", Fns: []fnSpec{
+		{"src/visor", "Blockchain", "verifyBlockHeader"},
 	}},
 	{File: "FeeTxn", Imports: []string{"Mathutil", "Fee", "CoinHours", "CoinLoops"}, Fns: []fnSpec{
 		{"src/util/fee", "", "VerifyTransactionFee"},
@@ -132,8 +145,17 @@ type tr struct {
 	fnName       string
 	nloops       int
 	loopMemo     map[*ast.RangeStmt]loopMemo
-	opaque       map[string]bool       // methods on loop elements whose results are data (opaqueMethods)
-	proj         map[string][][]string // second pass: element projection of each slice
+	opaque       map[string]bool // methods on loop elements whose results are data (opaqueMethods)
+	// stage3.go
+	cfg            fnConfig
+	extras         []paramInfo // input parameters that are not Go parameters (emptySize, x_err, eq_..)
+	zeroLocals     map[string]bool
+	sizeModelSlice map[string]bool
+	inputRoots     map[string]string
+	truncStmt      *ast.AssignStmt
+	keptName       string
+	keptFinal      string
+	proj           map[string][][]string // second pass: element projection of each slice
 }
 
 func (t *tr) gensym(p string) string { t.fresh++; return fmt.Sprintf("%s_%d", p, t.fresh) }
@@ -359,6 +381,15 @@ func (t *tr) expr(e ast.Expr) ex {
 		fail(t.fset, e, "unary operator %s", x.Op)
 	case *ast.CompositeLit:
 		return t.composite(x, false)
+	case *ast.SliceExpr:
+		if lenOnlySlice(t.info.TypeOf(x.X)) && x.Low == nil && x.Max == nil && x.High != nil {
+			// X[:n] on a slice represented by its length
+			l, h := t.expr(x.X), t.expr(x.High)
+			if l.mon || h.mon {
+				fail(t.fset, e, "panicking operand of a slice expression")
+			}
+			return ex{fmt.Sprintf("slice_to (%s) (%s)", h.code, l.code), true}
+		}
 	case *ast.BinaryExpr:
 		return t.binary(x)
 	case *ast.CallExpr:
@@ -408,6 +439,9 @@ func (t *tr) composite(cl *ast.CompositeLit, addr bool) ex {
 }
 
 func (t *tr) binary(x *ast.BinaryExpr) ex {
+	if r, ok := t.arrayEquality(x); ok {
+		return r
+	}
 	a := t.expr(x.X)
 	switch x.Op {
 	case token.LAND, token.LOR:
@@ -570,6 +604,9 @@ func (t *tr) call(c *ast.CallExpr) ex {
 	key := fnKey(fn)
 	name, ok := t.known[key]
 	if !ok {
+		if r, ok := t.sizeModelCall(c, fn); ok {
+			return r
+		}
 		if r, ok := t.opaqueCall(c, fn); ok {
 			return r
 		}
@@ -621,9 +658,14 @@ func containsReturn(n ast.Node) bool {
 		switch c := m.(type) {
 		case *ast.ReturnStmt:
 			found = true
+		case *ast.BranchStmt:
+			found = true // break: leaves the statement list like a return
 		case *ast.CallExpr:
 			if id, ok := c.Fun.(*ast.Ident); ok && id.Name == "panic" {
 				found = true
+			}
+			if sel, ok := c.Fun.(*ast.SelectorExpr); ok && logPanicNames[sel.Sel.Name] {
+				found = true // logger.Panic(..)
 			}
 		case *ast.FuncLit:
 			return false
@@ -730,6 +772,9 @@ func (t *tr) stmts(list []ast.Stmt, rest string) string {
 	}
 	switch x := s.(type) {
 	case *ast.ReturnStmt:
+		if len(x.Results) == 0 && t.truncStmt != nil {
+			return "Val " + t.keptCode(x)
+		}
 		if len(x.Results) == 0 {
 			if t.named == nil && t.nres > 0 {
 				fail(t.fset, x, "bare return without named results")
@@ -777,6 +822,9 @@ func (t *tr) stmts(list []ast.Stmt, rest string) string {
 			if id, ok := c.Fun.(*ast.Ident); ok && id.Name == "panic" {
 				return "Panic"
 			}
+			if isLogPanic(c, t.info) {
+				return "Panic"
+			}
 			if isLogCall(c, t.info) {
 				return k()
 			}
@@ -790,6 +838,11 @@ func (t *tr) stmts(list []ast.Stmt, rest string) string {
 		vs := gd.Specs[0].(*ast.ValueSpec)
 		if len(vs.Names) != 1 {
 			fail(t.fset, x, "multi-name var declaration")
+		}
+		if _, isStruct := t.info.TypeOf(vs.Names[0]).Underlying().(*types.Struct); isStruct && len(vs.Values) == 0 && t.cfg.SizeMethod != "" {
+			// `var mm T`: the zero value of a message type (only its size is asked for)
+			t.zeroLocals[vs.Names[0].Name] = true
+			return k()
 		}
 		v := pure("0")
 		if len(vs.Values) == 1 {
@@ -818,6 +871,12 @@ func (t *tr) stmts(list []ast.Stmt, rest string) string {
 		n := san(id.Name)
 		return letIn(n, pure(fmt.Sprintf("%s %d (%s %s 1)", w, bits, n, op)))
 	case *ast.AssignStmt:
+		if x == t.truncStmt {
+			return t.truncAssign(x, k)
+		}
+		if s, ok := t.inputAssign(x, k); ok {
+			return s
+		}
 		if len(x.Lhs) == 1 && len(x.Rhs) == 1 {
 			id, ok := x.Lhs[0].(*ast.Ident)
 			if !ok {
@@ -913,6 +972,11 @@ func (t *tr) stmts(list []ast.Stmt, rest string) string {
 		return t.forStmt(x, k)
 	case *ast.RangeStmt:
 		return t.rangeStmt(x, k)
+	case *ast.BranchStmt:
+		if x.Tok == token.BREAK && x.Label == nil && t.loop != nil {
+			// leave the range loop with the current values of the variables it assigns
+			return t.loop.breakCode
+		}
 	}
 	fail(t.fset, s, "statement %T", s)
 	return ""
@@ -1017,6 +1081,9 @@ func (t *tr) function1(fd *ast.FuncDecl, coqName string) fnOut {
 	t.slices, t.sliceOrder, t.sliceParams, t.sliceParamTy = map[string]*sliceInfo{}, nil, map[string]*types.Struct{}, map[string]types.Type{}
 	t.rootTy, t.fieldInfo, t.loop, t.helpers, t.fnName, t.nloops = map[string]*types.Struct{}, map[string]pathRef{}, nil, nil, coqName, 0
 	t.loopMemo = map[*ast.RangeStmt]loopMemo{}
+	t.extras, t.zeroLocals, t.sizeModelSlice, t.inputRoots, t.keptName = nil, map[string]bool{}, map[string]bool{}, map[string]string{}, ""
+	t.keptFinal = ""
+	t.truncStmt = t.findTruncStmt(fd)
 	params := []string{}
 	goParams := []string{}
 	addParams := func(fl *ast.FieldList, isRecv bool) {
@@ -1041,7 +1108,7 @@ func (t *tr) function1(fd *ast.FuncDecl, coqName string) fnOut {
 					params = append(params, san(n.Name))
 					continue
 				}
-				if _, _, ok := intInfo(ty); !ok {
+				if _, _, ok := intInfo(ty); !ok && !lenOnlySlice(ty) {
 					if b, isb := ty.Underlying().(*types.Basic); !(isb && b.Kind() == types.Bool) {
 						fail(t.fset, f, "parameter %s of unsupported type %v", n.Name, ty)
 					}
@@ -1080,16 +1147,38 @@ func (t *tr) function1(fd *ast.FuncDecl, coqName string) fnOut {
 	} else if t.nres == 0 {
 		fall = "Val tt"
 	}
+	const keptMark = "\x00KEPT\x00"
+	if t.truncStmt != nil {
+		fall = "Val " + keptMark
+	}
 	body := pre + t.stmts(fd.Body.List, fall)
-	// field-path parameters come first (receiver fields), in order of first use
-	all := append(append([]string{}, t.fields...), params...)
+	if t.truncStmt != nil {
+		if t.keptFinal == "" {
+			fail(t.fset, fd, "internal: truncating assignment not reached")
+		}
+		body = strings.ReplaceAll(body, keptMark, t.keptFinal)
+	}
+	t.checkSizeModel(fd)
+	// extra inputs first, then field-path parameters (receiver fields) in order of first use
+	all := []string{}
+	for _, p := range t.extras {
+		all = append(all, p.Name)
+	}
+	all = append(append(all, t.fields...), params...)
 	var src bytes.Buffer
 	printer.Fprint(&src, t.fset, fd)
 	// typed description of the parameters (for callers, the comment and the manifest)
 	fi := &fnInfo{Name: coqName, GoParams: goParams, HasRecv: fd.Recv != nil && len(fd.Recv.List) == 1 && len(fd.Recv.List[0].Names) == 1}
+	for _, p := range t.extras {
+		fi.Params = append(fi.Params, p)
+		fi.Extended = true
+	}
 	for _, p := range t.fields {
 		ref := t.fieldInfo[p]
 		pi := paramInfo{Name: p, Type: "Z", Root: ref.root, Rel: ref.rel}
+		if src, ok := t.inputRoots[ref.root]; ok {
+			pi.Doc = "field of the value returned by " + src
+		}
 		if sl := t.slices[p]; sl != nil {
 			pi.Slice, pi.Type, pi.GoTy = true, t.sliceCoqType(p), sl.goTy
 			if t.proj != nil {
@@ -1253,6 +1342,7 @@ func main() {
 			fmt.Fprintf(&b, "From Sky Require Import Gen.%s.\n", im)
 		}
 		b.WriteString("Open Scope Z_scope.\n\n")
+		b.WriteString(u.Preamble)
 		for _, f := range u.Fns {
 			p := byPath[modPrefix+f.Pkg]
 			if p == nil {
@@ -1264,7 +1354,7 @@ func main() {
 				fmt.Fprintf(os.Stderr, "TRANSLATION-BREAK: function %s.%s.%s not found\n", f.Pkg, f.Recv, f.Name)
 				os.Exit(3)
 			}
-			t := &tr{fset: p.Fset, pkg: p, info: p.TypesInfo, known: known, finfo: finfo, opaque: opaqueMethods[f.Pkg+"."+f.Recv+"."+f.Name]}
+			t := &tr{fset: p.Fset, pkg: p, info: p.TypesInfo, known: known, finfo: finfo, opaque: opaqueMethods[f.Pkg+"."+f.Recv+"."+f.Name], cfg: fnConfigs[f.Pkg+"."+f.Recv+"."+f.Name]}
 			coqName := f.Name
 			if f.Recv != "" {
 				coqName = f.Recv + "_" + f.Name
@@ -1278,6 +1368,9 @@ func main() {
 				ps = " (" + strings.Join(o.Params, " ") + " : Z)"
 			}
 			doc, mparams := paramDoc(coqName, o.Info.Params)
+			if t.truncStmt != nil {
+				doc += "(* result: the number of elements of " + exprString(t.fset, t.truncStmt.Lhs[0]) + " after the call (the function only truncates that slice) *)\n"
+			}
 			if mparams != nil {
 				// list parameters: typed binders, the projection in a comment, the loops first
 				names, tys := []string{}, []string{}
